@@ -59,6 +59,10 @@ func (f *fileWrapper) TotalSize() []byte {
 	size := make([]byte, 4)
 
 	info, err := f.fs.Stat(f.dataPath)
+	// A partial upload is addressed by its final name: its data so far is in the .incomplete file.
+	if errors.Is(err, fs.ErrNotExist) {
+		info, err = f.fs.Stat(f.incompletePath)
+	}
 	if err == nil {
 		s += info.Size() - f.dataOffset
 	}
